@@ -612,3 +612,7 @@ Theorem C16_source_image_stage : forall imp D, ProtoPrintFileFullProofs.wf_dfile
           exists e, In e (ProtoPrintFile.d_body D) /\ ProtoPrintFileFullProofs.elem_equiv e e').
 Proof. exact image_stage. Qed.
 Print Assumptions C16_source_image_stage.
+
+(* the list-method example package is inside the hypotheses of C16_full / C16_full_lists / C16_full_declarative *)
+Example C16_example_list_valid : valid_package ex_snake ex_list_pkg.
+Proof. apply valid_package_b_sound. vm_compute. reflexivity. Qed.
